@@ -106,10 +106,14 @@ func VerifC18abCertManager() {
 		vAssume(t >= activation && t <= E-vC18skew)
 		vAssert(S+vC18skew <= t && t+vC18skew <= E, "at every instant of its serving interval the certificate has been and stays valid for the clock-skew allowance")
 		vAssert(next.Start().UnixNano()+vC18skew <= E-vC18skew, "the next certificate is already valid (with allowance) when the served one is retired")
+		vC18now = time.Unix(0, t) // read at an arbitrary instant of the serving interval, not only at its start
 		hs := m.SerializedCertHashes()
 		vAssert(vC18hasHash(hs, cur) && vC18hasHash(hs, next), "the advertised hashes contain the served and the next certificate")
 		if m.lastConfig != nil {
-			vAssert(vC18hasHash(hs, m.lastConfig), "the advertised hashes still contain the previously served certificate")
+			vAssert(vC18hasHash(hs, m.lastConfig), "throughout the serving interval the confirmed hashes still contain the previously served certificate (an address learned during the previous period names it first)")
+			if t > m.lastConfig.End().UnixNano() {
+				vCover("previous-certificate-expired")
+			}
 		}
 		ac := m.AddrComponent()
 		c0, _ := vC18addrComponent(cur.sha256[:])
